@@ -30,6 +30,25 @@ def check(ctx):
     file_kind_findings(ctx, kr, "T2-lossless", lambda r, union, mixed, ks: "float" in union and r.ret in ("int", "bool"),
                        "no rule declared int or bool can return a float (e.g. an int rule returning 2.5): the converter only accepts a supplied column that fits the declared type without loss, so the system's own output would be rejected (assumes a float-kinded result is not always integral)")
     ctx.floor("T2-lossless", 250)
+    # bool <- int is exempt above only because `n and cond` yields the int 0; an int in *value position*
+    # (`cond and n`, `n or cond`) hands the count itself to a column declared bool
+    ctx.rule("T2-bool", "a rule declared bool has no and/or whose value-position operand (last of `and`, any of `or`) can be a number: the column would carry a count, which the converter rejects when it is fed back")
+    seen = set()
+    nbool = 0
+    for d in kr.dates:
+        for q, sm in kr.res[d].items():
+            if sm[0] != "ok":
+                continue
+            r = repo.rules_by_qual.get(q)
+            if r is None or r.ret != "bool":
+                continue
+            nbool += 1
+            for e in sm[3]:
+                if e[0] == "boolop-nonbool" and (q, e[3]) not in seen and {"int", "float"} & set(e[4] if isinstance(e[4], (list, tuple, set)) else [e[4]]):
+                    seen.add((q, e[3]))
+                    ctx.ob("T2-bool", ok=False, distinct=(q, e[3]))
+                    ctx.violation("T2-bool", f"{q}|{e[3]}", f"src/_gettsim/{e[2]}:{e[1]} {r.name}", f"`{e[3]}` can evaluate to {e[4]} in a rule declared bool: with two or more (e.g. entitled children) the column holds 2, 3, ... and supplying the computed column again fails with 'Conversion from input type int64 to bool failed'")
+    ctx.ob("T2-bool", ok=True, distinct="bool rules examined", n=max(nbool, 1))
     merge_and_split(ctx, repo)
     warn(ctx, repo)
     no_direct_node_calls(ctx, s)
